@@ -36,7 +36,7 @@
 #define NS __attribute__((no_sanitize_thread, noinline))
 #define MAXCB 32
 enum { CF_PENDING_AT_FORK = 0, CF_HELPER_ASLEEP_AT_FORK = 1, CF_PERCPU = 2, CF_PERTHREAD = 3, CF_HT_RESIZE_QUEUED = 4, CF_BP_READER_IN_SECTION_AT_FORK = 5,
-       CF_CHILD_OK = 6, CF_FORKED_TWICE = 7, CF_CB_RAN_BEFORE_FORK = 8 };
+       CF_CHILD_OK = 6, CF_FORKED_TWICE = 7, CF_CB_RAN_BEFORE_FORK = 8, CF_LATE_TABLE = 9, CF_CHILD_OWN_TABLE = 10 };
 
 #ifdef FL_QSBR
 # define RLOCK() F(thread_online)()
@@ -99,6 +99,7 @@ static void check_all_ran_once(const char *who)
 }
 
 static void do_fork(void);
+static void child_own_table(void);
 static int generation;
 static void child_main(void)
 {
@@ -117,6 +118,7 @@ static void child_main(void)
 	F(barrier)();
 	check_all_ran_once("child");
 	if ((mask & 16) && ht) ht_check_and_empty("child");
+	if (mask & 128) { ds_flag(CF_CHILD_OWN_TABLE); child_own_table(); }
 	if (mask & 32) { F(synchronize_rcu)(); F(barrier)(); }
 	ds_done();	/* in the child: exit status 0 */
 }
@@ -147,10 +149,10 @@ static void do_fork(void)
 	ds_flag(CF_CHILD_OK);
 }
 
-enum { OP_CALLRCU, OP_HTADD, OP_SYNC, OP_BARRIER, OP_LOCK, OP_UNLOCK, OP_FORK, OP_YIELD, OP_READ, OP_BAD };
+enum { OP_CALLRCU, OP_HTADD, OP_SYNC, OP_BARRIER, OP_LOCK, OP_UNLOCK, OP_FORK, OP_YIELD, OP_READ, OP_HTNEW, OP_BAD };
 static NS int fetch(int t, int i, long *a0)
 {
-	static const char *names[] = { "callrcu", "htadd", "sync", "barrier", "lock", "unlock", "fork", "yield", "read" };
+	static const char *names[] = { "callrcu", "htadd", "sync", "barrier", "lock", "unlock", "fork", "yield", "read", "htnew" };
 	const struct ds_op *o = ds_op(t, i);
 	*a0 = o->a[0];
 	for (int k = 0; k < OP_BAD; k++) if (!strcmp(o->name, names[k])) return k;
@@ -177,6 +179,39 @@ static void *reader_main(void *arg)
 	return NULL;
 }
 
+static struct cds_lfht *volatile late_ht;
+/* an application thread that is NOT a registered reader (allowed next to fork for every flavor): it creates the process's first AUTO_RESIZE hash
+ * table, possibly while T0 forks */
+static void *plain_main(void *arg)
+{
+	int t = (int)(long)arg, n = ds_nops(t);
+	for (int i = 0; i < n; i++) {
+		long a0; int op = fetch(t, i, &a0);
+		ds_op_begin(i);
+		if (op == OP_HTNEW) { if (!late_ht) { struct cds_lfht *h = cds_lfht_new_flavor(1, 1, 0, CDS_LFHT_AUTO_RESIZE, &F(flavor), NULL); if (!h) ds_bad_case("cds_lfht_new failed"); late_ht = h; ds_flag(CF_LATE_TABLE); } }
+		else if (op == OP_YIELD) ds_yield();
+		else ds_bad_case("fork: op not valid in a plain thread");
+	}
+	ds_op_begin(-1);
+	return NULL;
+}
+static void child_own_table(void)
+{
+	/* the child creates a resizable table of its own, fills it so that lazy resizes run on the (re-created or new) worker, empties and destroys it */
+	struct cds_lfht *h = cds_lfht_new_flavor(1, 1, 0, CDS_LFHT_AUTO_RESIZE, &F(flavor), NULL);
+	struct hnode *n[10];
+	if (!h) ds_fail("child: cds_lfht_new returned NULL");
+	for (int i = 0; i < 10; i++) { n[i] = malloc(sizeof *n[i]); cds_lfht_node_init(&n[i]->n); n[i]->key = 1000 + i; RLOCK(); cds_lfht_add(h, (unsigned long)n[i]->key * 2654435761ul, &n[i]->n); RUNLOCK(); }
+	RLOCK();
+	for (int i = 0; i < 10; i++) {
+		struct cds_lfht_iter it; cds_lfht_lookup(h, (unsigned long)n[i]->key * 2654435761ul, match, &n[i]->key, &it);
+		if (cds_lfht_iter_get_node(&it) != &n[i]->n) ds_fail("child: key %d added to the child's own table is not found", n[i]->key);
+		if (cds_lfht_del(h, &n[i]->n)) ds_fail("child: del in the child's own table failed");
+	}
+	RUNLOCK();
+	F(synchronize_rcu)();
+	if (cds_lfht_destroy(h, NULL)) ds_fail("child: destroy of the child's own emptied table failed");
+}
 static int tids[8];
 static void scenario(void)
 {
@@ -194,10 +229,12 @@ static void scenario(void)
 		ht = cds_lfht_new_flavor(1, 1, 0, CDS_LFHT_AUTO_RESIZE | (ds_cfg("ht", 0) > 1 ? CDS_LFHT_ACCOUNTING : 0), &F(flavor), NULL);
 		if (!ht) ds_bad_case("cds_lfht_new failed");
 	}
+	int plain = (int)ds_cfg("plain", -1);
 #ifdef FL_BP
-	for (int t = 1; t < np && t < 8; t++) tids[t] = ds_spawn(reader_main, (void *)(long)t);
+	for (int t = 1; t < np && t < 8; t++) tids[t] = ds_spawn(t == plain ? plain_main : reader_main, (void *)(long)t);
 #else
-	(void)reader_main; (void)tids;
+	(void)reader_main;
+	if (plain > 0 && plain < np) tids[plain] = ds_spawn(plain_main, (void *)(long)plain);
 #endif
 	for (int i = 0; i < ds_nops(0); i++) {
 		long a0; int op = fetch(0, i, &a0);
@@ -217,7 +254,10 @@ static void scenario(void)
 	ds_op_begin(99);
 #ifdef FL_BP
 	for (int t = 1; t < np && t < 8; t++) ds_join(tids[t]);
+#else
+	if (plain > 0 && plain < np) ds_join(tids[plain]);
 #endif
+	if (late_ht) { if (cds_lfht_destroy(late_ht, NULL)) ds_fail("parent: destroy of the (empty) table created by the plain thread failed"); }
 	F(barrier)();
 	check_all_ran_once("parent");
 	if (ht) ht_check_and_empty("parent");
